@@ -217,7 +217,10 @@ impl BuiltInFunction {
                         let this_index = self.index.get();
                         self.index.set(this_index + 1);
                         let underlying = self.underlying.0.borrow();
-                        let this_value: Primitive = underlying[this_index as usize].clone();
+                        let this_value: Primitive = underlying
+                            .get(this_index as usize)
+                            .cloned()
+                            .context("the list was shortened while it was being traversed")?;
 
                         Ok(JumpRequest {
                             destination: JumpRequestDestination::Standard(
@@ -299,7 +302,10 @@ impl BuiltInFunction {
                         let this_index = self.index.get();
                         self.index.set(this_index + 1);
                         let underlying = self.underlying.0.borrow();
-                        let this_value: Primitive = underlying[this_index as usize].clone();
+                        let this_value: Primitive = underlying
+                            .get(this_index as usize)
+                            .cloned()
+                            .context("the list was shortened while it was being traversed")?;
 
                         Ok(JumpRequest {
                             destination: JumpRequestDestination::Standard(
@@ -317,7 +323,12 @@ impl BuiltInFunction {
                         if let ReturnValue::Value(Primitive::Bool(true)) = return_value {
                             let underlying = self.underlying.0.borrow();
                             let this_index: usize = (self.index.get() - 1).try_into()?;
-                            result.push(underlying[this_index].clone());
+                            result.push(
+                                underlying
+                                    .get(this_index)
+                                    .cloned()
+                                    .context("the list was shortened while it was being traversed")?,
+                            );
                         }
 
                         Ok(<i32 as TryInto<usize>>::try_into(self.index.get())?
